@@ -98,34 +98,85 @@ structure Assigned where
 
 def Assigned.mangled (a : Assigned) : Bool := a.impl != a.name
 
-/-- state: `mangled_type_names` (as insertion log) and the decisions so far -/
+/-- state: `mangled_type_names` (as insertion log), the decisions so far, and the names of the classes /
+    aliases that end up in `S::detail::types` (every type defined inside a composite under the name chosen for
+    it, every mangled public type) -/
 structure NState where
   mangled : List String
   out : List Assigned
+  declared : List String := []
   deriving Repr
 
-/-- one iteration; `none` = `throw_error("can't generate a mangled name")` -/
+open Templates (NameSet NameRef InsertSite)
+
+/-- the set a lookup / reservation refers to -/
+def pickSet (members mangled nonMangled : List String) : NameSet → List String
+  | .members => members
+  | .mangled => mangled
+  | .nonMangled => nonMangled
+
+/-- the name a lookup / insertion refers to; `m` is the name the mangling loop returned -/
+def pickName (own m : String) : NameRef → String
+  | .own => own
+  | .ownEntry => entryName own
+  | .mangledName => m
+  | .mangledEntry => entryName m
+
+/-- does the decision at `site` choose the mangling branch -/
+def siteCond (site : InsertSite) (members mangled nonMangled : List String) (own : String) : Bool :=
+  site.lookups.any (fun c => (pickSet members mangled nonMangled c.1).contains (pickName own own c.2))
+
+def siteReserved (site : InsertSite) (members mangled nonMangled : List String) : List String :=
+  site.reserved.flatMap (pickSet members mangled nonMangled)
+
+/-- the set after the insertions of a branch (most recent first) -/
+def siteInsert (refs : List NameRef) (own m : String) (mangled : List String) : List String :=
+  (refs.map (pickName own m)).reverse ++ mangled
+
+/-- one iteration of the type loops, as `Extracted.Templates.publicTypeSite` / `inlineTypeSite` describe them;
+    `none` = `throw_error("can't generate a mangled name")` -/
 def stepType (nonMangled : List String) (st : NState) : TEvent → Option NState
+  | .pub n members =>
+    if siteCond Templates.publicTypeSite members st.mangled nonMangled n then
+      (mangle n (siteReserved Templates.publicTypeSite members st.mangled nonMangled)).map
+        (fun m => ⟨siteInsert Templates.publicTypeSite.insMangled n m st.mangled, st.out ++ [⟨n, m, true⟩],
+                   st.declared ++ [m]⟩)
+    else some ⟨siteInsert Templates.publicTypeSite.insPlain n n st.mangled, st.out ++ [⟨n, n, true⟩], st.declared⟩
+  | .inl n members =>
+    if siteCond Templates.inlineTypeSite members st.mangled nonMangled n then
+      (mangle n (siteReserved Templates.inlineTypeSite members st.mangled nonMangled)).map
+        (fun m => ⟨siteInsert Templates.inlineTypeSite.insMangled n m st.mangled, st.out ++ [⟨n, m, false⟩],
+                   st.declared ++ [m]⟩)
+    else some ⟨siteInsert Templates.inlineTypeSite.insPlain n n st.mangled, st.out ++ [⟨n, n, false⟩],
+               st.declared ++ [n]⟩
+
+/-- the same iteration with the decisions written out the way names_generator.hpp is expected to make them
+    (the theorems are about this form; `stepType_eq` ties it to the extracted sites) -/
+def stepTypeE (nonMangled : List String) (st : NState) : TEvent → Option NState
   | .pub n members =>
     if members.contains n then
       (mangle n (members ++ st.mangled ++ nonMangled)).map
-        (fun m => ⟨m :: st.mangled, st.out ++ [⟨n, m, true⟩]⟩)
-    else some ⟨st.mangled, st.out ++ [⟨n, n, true⟩]⟩
+        (fun m => ⟨m :: st.mangled, st.out ++ [⟨n, m, true⟩], st.declared ++ [m]⟩)
+    else some ⟨st.mangled, st.out ++ [⟨n, n, true⟩], st.declared⟩
   | .inl n members =>
     if members.contains n || st.mangled.contains n then
       (mangle n (members ++ st.mangled ++ nonMangled)).map
-        (fun m => ⟨m :: st.mangled, st.out ++ [⟨n, m, false⟩]⟩)
-    else some ⟨n :: st.mangled, st.out ++ [⟨n, n, false⟩]⟩
+        (fun m => ⟨m :: st.mangled, st.out ++ [⟨n, m, false⟩], st.declared ++ [m]⟩)
+    else some ⟨n :: st.mangled, st.out ++ [⟨n, n, false⟩], st.declared ++ [n]⟩
 
 def runTypes (nonMangled : List String) : List TEvent → NState → Option NState
   | [], st => some st
   | e :: es, st => (stepType nonMangled st e).bind (runTypes nonMangled es)
 
+def runTypesE (nonMangled : List String) : List TEvent → NState → Option NState
+  | [], st => some st
+  | e :: es, st => (stepTypeE nonMangled st e).bind (runTypesE nonMangled es)
+
 /-- `collect_non_mangled_type_names` -/
 def publicTypeNames (types : List Elem) : List String := types.map Elem.name
 
 def typeNames (types : List Elem) : Option NState :=
-  runTypes (publicTypeNames types) (typeEvents types) ⟨[], []⟩
+  runTypes (publicTypeNames types) (typeEvents types) ⟨[], [], []⟩
 
 /-- `mangled_tag_types_name` -/
 def tagTypesName (types : List Elem) : Option String :=
@@ -165,26 +216,63 @@ structure MAssigned where
 structure MState where
   mangled : List String    -- `mangled_message_names`
   out : List MAssigned
+  /-- names of the classes that end up in `S::detail::messages`: every group class and entry class under the
+      names chosen for them, every mangled message class -/
+  declared : List String := []
   deriving Repr
 
+/-- one iteration of the message / group loops as `Extracted.Templates.messageSite` / `groupSite` describe them -/
 def stepMessage (nonMangled : List String) (st : MState) : MEvent → Option MState
+  | .msg n members =>
+    if siteCond Templates.messageSite members st.mangled nonMangled n then
+      (mangle n (siteReserved Templates.messageSite members st.mangled nonMangled)).map
+        (fun m => ⟨siteInsert Templates.messageSite.insMangled n m st.mangled, st.out ++ [⟨n, m, "", true⟩],
+                   st.declared ++ [m]⟩)
+    else some ⟨siteInsert Templates.messageSite.insPlain n n st.mangled, st.out ++ [⟨n, n, "", true⟩], st.declared⟩
+  | .grp n em =>
+    if siteCond Templates.groupSite em st.mangled nonMangled n then
+      (mangleGroup n (siteReserved Templates.groupSite em st.mangled nonMangled)).map
+        (fun m => ⟨siteInsert Templates.groupSite.insMangled n m st.mangled, st.out ++ [⟨n, m, entryName m, false⟩],
+                   st.declared ++ [m, entryName m]⟩)
+    else some ⟨siteInsert Templates.groupSite.insPlain n n st.mangled, st.out ++ [⟨n, n, entryName n, false⟩],
+               st.declared ++ [n, entryName n]⟩
+
+/-- the expected form (see `stepTypeE`) -/
+def stepMessageE (nonMangled : List String) (st : MState) : MEvent → Option MState
   | .msg n members =>
     if members.contains n then
       (mangle n (members ++ st.mangled ++ nonMangled)).map
-        (fun m => ⟨m :: st.mangled, st.out ++ [⟨n, m, "", true⟩]⟩)
-    else some ⟨st.mangled, st.out ++ [⟨n, n, "", true⟩]⟩
+        (fun m => ⟨m :: st.mangled, st.out ++ [⟨n, m, "", true⟩], st.declared ++ [m]⟩)
+    else some ⟨st.mangled, st.out ++ [⟨n, n, "", true⟩], st.declared⟩
   | .grp n em =>
     if st.mangled.contains n || st.mangled.contains (entryName n) || em.contains (entryName n) || em.contains n then
       (mangleGroup n (em ++ st.mangled ++ nonMangled)).map
-        (fun m => ⟨entryName m :: m :: st.mangled, st.out ++ [⟨n, m, entryName m, false⟩]⟩)
-    else some ⟨entryName n :: n :: st.mangled, st.out ++ [⟨n, n, entryName n, false⟩]⟩
+        (fun m => ⟨entryName m :: m :: st.mangled, st.out ++ [⟨n, m, entryName m, false⟩],
+                   st.declared ++ [m, entryName m]⟩)
+    else some ⟨entryName n :: n :: st.mangled, st.out ++ [⟨n, n, entryName n, false⟩],
+               st.declared ++ [n, entryName n]⟩
 
 def runMessages (nonMangled : List String) : List MEvent → MState → Option MState
   | [], st => some st
   | e :: es, st => (stepMessage nonMangled st e).bind (runMessages nonMangled es)
 
+def runMessagesE (nonMangled : List String) : List MEvent → MState → Option MState
+  | [], st => some st
+  | e :: es, st => (stepMessageE nonMangled st e).bind (runMessagesE nonMangled es)
+
+/-- the shape of the four decisions the theorems are proved for -/
+def sitesExpected : Bool :=
+  Templates.mangleLoopsOk &&
+  Templates.publicTypeSite == ⟨[(.members, .own)], [.members, .mangled, .nonMangled], [.mangledName], []⟩ &&
+  Templates.inlineTypeSite ==
+    ⟨[(.members, .own), (.mangled, .own)], [.members, .mangled, .nonMangled], [.mangledName], [.own]⟩ &&
+  Templates.messageSite == ⟨[(.members, .own)], [.members, .mangled, .nonMangled], [.mangledName], []⟩ &&
+  Templates.groupSite ==
+    ⟨[(.mangled, .own), (.mangled, .ownEntry), (.members, .ownEntry), (.members, .own)],
+     [.members, .mangled, .nonMangled], [.mangledName, .mangledEntry], [.own, .ownEntry]⟩
+
 def messageNames (msgs : List MessageDef) : Option MState :=
-  runMessages (msgs.map (·.name)) (messageEvents msgs) ⟨[], []⟩
+  runMessages (msgs.map (·.name)) (messageEvents msgs) ⟨[], [], []⟩
 
 def tagMessagesName (msgs : List MessageDef) : Option String :=
   if (msgs.map (·.name)).contains "messages" then mangle "messages" (msgs.map (·.name)) else some "messages"
@@ -512,6 +600,25 @@ def nameProblems (s : SchemaDef) : List Problem :=
   declProblems s ++ s.types.flatMap (typeMemberProblems s.types) ++ s.messages.flatMap (messageProblems s.types)
 
 /-! ## 3. `size_bytes` parameter names (traits_generator.hpp) -/
+
+/-- the names that occur again later in the list -/
+def dupNames : List String → List String
+  | [] => []
+  | x :: xs => (if xs.contains x then [x] else []) ++ dupNames xs
+
+def dupProblemsOf (ns : String) (declared : List String) : List Problem :=
+  (dupNames declared).map (fun n => ⟨"duplicate-declaration", ns ++ "." ++ n, n, "all"⟩)
+
+/-- a class name the generator declares twice in `S::detail::types` / `S::detail::messages`: every header
+    that sees both declarations (the top-level header at the latest) is ill-formed -/
+def duplicateProblems (s : SchemaDef) : List Problem :=
+  ((typeNames s.types).map (fun ts => dupProblemsOf "detail.types" ts.declared)).getD [] ++
+  ((messageNames s.messages).map (fun ms => dupProblemsOf "detail.messages" ms.declared)).getD []
+
+/-- the names `nsDecls` puts into a `detail` namespace (cross-check of `declared`) -/
+def detailNames (ns : String) (ds : List NsDecl) : List String :=
+  (ds.filter (fun d => d.ns == ns)).map (·.name)
+
 
 def joinPath (path : List String) : String := "_".intercalate path
 
